@@ -233,6 +233,18 @@ package silence
 //@   assigns s.st[*], s.mi[*], s.vi, s.vi[*], s.version
 //@   noeffect broadcast
 
+// C12: the API's expire is expire under the store's lock (taken once, held at the call, released on every path)
+//@ func (*Silences).Expire
+//@   props C12
+//@   nosafe
+//@   requires s != nil && tracer != nil
+//@   after call Tracer).Start assume res0 != nil && res1 != nil
+//@   at call Silences).expire assert [this-id-under-the-lock] arg1 == id && arg0 == s && count("Mutex).Lock") == 1 && count("Mutex).Unlock") == 0
+//@   ensures [result-is-expire's] count("Silences).expire") == 1 && result == ret("Silences).expire")
+//@   ensures [monitor-lock-released] count("Mutex).Lock") == 1 && count("Mutex).Unlock") == 1
+//@   opaque Silences).expire
+//@   noeffect Silences).expire Tracer).Start Span).End WithAttributes attribute.String
+
 // validation of one matcher is string/regexp level and outside the verified subset (uninterpreted predicates);
 // validateSilence itself is verified: it upgrades the legacy matcher field, and accepts exactly the silences that have
 // at least one matcher set, whose every set is non-empty, all valid and not matching-everything, and whose start and
